@@ -129,6 +129,16 @@ def load_correspondence(ctx):
     evorig.clear_evolutions()
 
 
+def has_content_type_table(alias):
+    conn = dbrig.raw_connection(alias)
+    try:
+        cur = conn.cursor()
+        cur.execute("SELECT name FROM sqlite_master WHERE type='table' AND name='django_content_type'")
+        return bool(cur.fetchall())
+    finally:
+        conn.close()
+
+
 def run(ctx):
     evorig.setup()
     load_correspondence(ctx)
@@ -200,6 +210,14 @@ def run(ctx):
                         ctx.fail(None, 'creating the models on %s fails: %s' % (alias, str(r[1])[:150]), rep)
                         ok = False
                         break
+                    # what the receivers of Django's post_migrate write for this run (content types) is written to the
+                    # database that was evolved: the models placed there have their rows there
+                    here = set(tuple(x) for x in evorig.content_types(alias))
+                    mine = [nm for nm, db in zip(names, split) if db == alias]
+                    lost = [nm for nm in mine if ('vapp', nm.lower()) not in here]
+                    if lost and has_content_type_table(alias):
+                        ctx.fail(None, 'after evolving %s its django_content_type has no row for %s (placed on %s): the '
+                                 'post-migrate bookkeeping of the run went to another database' % (alias, lost, alias), rep)
                 if not ok:
                     continue
                 ctx.case({'routes': rep['routes'], 'mutations': [sigs.model_mutation(m) for m in muts]},
